@@ -73,6 +73,7 @@ func c13Body(e *Env) {
 	if c.Cfg == nil {
 		cfg := DrawPQCfg(e.Rng("cfg"), false)
 		drawSched(&cfg, rng)
+		e.S.Tune(cfg.Stick, cfg.BgWeight, cfg.Starve, 40)
 		cfg.NTx = 5 + rng.Intn(36) // events
 		c.Cfg = &cfg
 	}
